@@ -1,315 +1,228 @@
-"""C07 -- grid cell numbers, rows/columns and coordinates are mutually consistent (structural clauses)."""
+"""C07 -- grid cell numbers, rows/columns and coordinates are mutually consistent (structural clauses).
+
+Kernel clauses are decided on normalised functions (cnorm) by symbolic evaluation of one loop iteration (ceval / cq);
+wrapper clauses by symbolic evaluation of the Python functions (pq).  No clause compares source text."""
 import ast
 
 from ..core import AnalysisError
 from ..cfront import strip, text
-from .. import ckern, ceval
-from ..ceval import CEval, find_all, loop_parts, body_stmts, loop_var, stores_to, to_expr
-from ..formula import Canon, Ratio, Undecided, show, num, ExprBuilder
-from ..pyfront import Mod, dotted, const_value
+from .. import ckern, ceval, cq, pq, cnorm, xlayer, pyxread
+from ..ceval import CEval, find_all, loop_parts, body_stmts, loop_var
+from ..formula import Canon, Ratio, Undecided, show, num
+from ..pyfront import Mod
 
 EXPLANATION = (
-    "The numbering formulas are extracted from c_grid.c and composed symbolically: getnxy is (idx mod ncols, idx div "
-    "ncols); getcoord is xll + csz (col + 1/2), yll + csz (nrows-1-row + 1/2); feeding these coordinates to "
-    "c_coord2cell gives col + 1/2 and nrows-1-row + 1/2 BEFORE the floor (exact rational identities), hence the "
-    "same column and row, recombined as row*ncols + col.  Conversion discipline: every double-to-integer conversion "
-    "whose result decides 'inside the grid' converts a floor()ed value that was range-tested as a double (truncation "
-    "maps (-1, 0) to 0 and would report points left of / below the extent as inside).  Invalid cell numbers: in "
-    "c_cell2rowcol, c_cell2coord, c_neighbours, c_upstream, c_downstream the test idx < 0 or idx >= nrows*ncols "
-    "(exact comparison operators) dominates every use and yields -1 / NaN / an error.  Wrappers: xvalues / yvalues "
-    "use the first row / first column cell numbers, xlim / ylim the extent formulas.  Floating-point rounding for "
-    "large origins is not decided.")
+    "One iteration of every conversion kernel is evaluated symbolically after normalisation (getnxy / getcoord inlined, "
+    "temporaries substituted).  c_cell2rowcol stores (row, column) = ((c - c mod ncols)/ncols, c mod ncols); c_cell2coord "
+    "stores xll + csz (col + 1/2), yll + csz (nrows-1-row + 1/2); c_coord2cell stores (nrows-1-fy) ncols + fx with "
+    "fx, fy the floors of (x-xll)/csz, (y-yll)/csz.  Feeding the centre of cell (col, row) to c_coord2cell gives "
+    "col + 1/2 and nrows-1-row + 1/2 BEFORE the floor (exact rational identities), hence the same column and row, "
+    "recombined as row*ncols + col.  Conversion discipline: every double-to-integer conversion in the stored cell "
+    "number converts a floor()ed value and the store is reached only after that floored value was range-tested as a "
+    "double (truncation maps (-1, 0) to 0 and would report points left of / below the extent as inside); every other "
+    "path stores -1.  Invalid cell numbers: in c_cell2rowcol, c_cell2coord, c_neighbours, c_upstream, c_downstream "
+    "the test idx < 0 or idx >= nrows*ncols separates the uses from the paths that yield -1 / NaN / an error.  "
+    "Wrappers: xvalues / yvalues use the first row / first column cell numbers, xlim / ylim the extent formulas.  "
+    "Floating-point rounding for large origins is not decided.")
+
+
+def is_nan(v):
+    if v == ('nan',):
+        return True
+    s = show(v).replace(" ", "")
+    return "/0)" in s or "/(0)" in s or s in ("nan", "NAN") or "c:nan" in s
+
+
+def one_loop(fn, file):
+    top = body_stmts(fn["body"])
+    ls = [s for s in top if s.get("kind") == "ForStmt" and cnorm.writes(s)[1]]
+    if len(ls) != 1:
+        raise AnalysisError(f"{file}: {fn['name']}: element loop not found")
+    lr = cq.loop_range(ls[0], cq.preceding(top, ls[0]))
+    return ls[0], lr
 
 
 def run(rep):
     rep.rule("R07.a", "numbering formulas and their composition: coord2cell(cell2coord(c)) = c as exact identities before the floor")
-    rep.rule("R07.b", "double -> integer conversions that decide 'inside the grid' convert a floor()ed, double-range-tested value")
-    rep.rule("R07.c", "invalid cell numbers: `idx < 0 || idx >= nrows*ncols` dominates every use and yields -1 / NaN / error")
+    rep.rule("R07.b", "double -> integer conversions that decide 'inside the grid' convert a floor()ed, double-range-tested value; every other path stores -1")
+    rep.rule("R07.c", "invalid cell numbers: `idx < 0 || idx >= nrows*ncols` separates every use from the paths that yield -1 / NaN / error")
     rep.rule("R07.d", "wrappers: xvalues/yvalues from first-row / first-column cells, xlim/ylim extent formulas, errors raised")
     K = ckern.analyze(rep.repo)
     fns = K["fns"]
-    for need in ("getnxy", "getcoord", "c_coord2cell", "c_cell2rowcol", "c_cell2coord", "c_neighbours"):
+    for need in ("c_coord2cell", "c_cell2rowcol", "c_cell2coord", "c_neighbours", "c_upstream", "c_downstream"):
         if need not in fns:
             raise AnalysisError(f"gis/c_grid.c: {need} not found")
-    file = fns["getnxy"]["file"]
-    rep.unit(f"{file}: getnxy, getcoord, c_coord2cell, c_cell2rowcol, c_cell2coord, c_neighbours, c_upstream, c_downstream; gis/grid.py: coord2cell, cell2coord, xvalues, yvalues, xlim, ylim")
+    N = lambda q: ckern.normalised(K, q, rep.repo)
+    file = fns["c_coord2cell"]["file"]
+    rep.unit(f"{file}: c_coord2cell, c_cell2rowcol, c_cell2coord, c_neighbours, c_upstream, c_downstream (normalised); gis/grid.py: coord2cell, cell2coord, cell2rowcol, xvalues, yvalues, xlim, ylim")
     cn = Canon()
-    # getnxy
-    g = fns["getnxy"]
-    ce = CEval().run([s for s in g["body"]["inner"] if s.get("kind")], {})
-    st = {show(e.idx): e.val for e in ce.effects if e.arr == "nxy"}
-    col = ('call', 'mod', (('sym', 'idxcell'), ('sym', 'ncols')))
-    okg = st.get("0") == col and "1" in st and cn.ratio(st["1"]) == cn.ratio(('div', ('sub', ('sym', 'idxcell'), col), ('sym', 'ncols')))
-    rep.check(okg, "R07.a", file, "getnxy", "column = idx mod ncols, row = (idx - column) / ncols (row by row from the top-left)", str({k: show(v) for k, v in st.items()}), line=g["line"])
-    # getcoord
-    gc = fns["getcoord"]
-    C, R = ('sym', 'C'), ('sym', 'R')
-    ce = CEval(None, {"nxy": lambda idx: C if idx == num(0) else R})
-    ce.run([s for s in gc["body"]["inner"] if s.get("kind") not in ("DeclStmt",) and not (s.get("kind") == "CallExpr")], {})
-    co = {show(e.idx): e.val for e in ce.effects if e.arr == "coord"}
-    half = num(0.5)
-    wantx = ('add', ('sym', 'xll'), ('mul', ('sym', 'csz'), ('add', C, half)))
-    wanty = ('add', ('sym', 'yll'), ('mul', ('sym', 'csz'), ('add', ('sub', ('sub', ('sym', 'nrows'), num(1)), R), half)))
-    okc = "0" in co and "1" in co and cn.ratio(co["0"]) == cn.ratio(wantx) and cn.ratio(co["1"]) == cn.ratio(wanty)
-    rep.check(okc, "R07.a", file, "getcoord", "cell centre = (xll + csz (col + 1/2), yll + csz (nrows-1-row + 1/2))", str({k: show(v)[:60] for k, v in co.items()}), line=gc["line"])
-    call = find_all(gc["body"], lambda n: n.get("kind") == "CallExpr" and text(n["inner"][0]) == "getnxy")
-    rep.check(len(call) == 1 and [text(a).replace(" ", "") for a in call[0]["inner"][1:]] == ["ncols", "idxcell", "nxy"], "R07.a", file, "getcoord", "row and column from getnxy(ncols, idxcell)", "", line=gc["line"])
-    # coord2cell
-    cc = fns["c_coord2cell"]
-    loop = find_all(cc["body"], lambda n: n.get("kind") == "ForStmt")
-    if len(loop) != 1:
-        raise AnalysisError(f"{file}: c_coord2cell loop not found")
-    iv = loop_var(loop[0])
-    stm = body_stmts(loop_parts(loop[0])[3])
-    X, Y = ('sym', 'X'), ('sym', 'Y')
 
-    def xy(idx):
-        c2 = Canon()
-        if c2.ratio(idx) == c2.ratio(('mul', num(2), ('sym', iv))):
-            return X
-        if c2.ratio(idx) == c2.ratio(('add', ('mul', num(2), ('sym', iv)), num(1))):
-            return Y
-        raise Undecided(f"xycoords index {show(idx)}")
-    for inside in (True, False):
-        ce = CEval(lambda c, inside=inside: inside if c[0] in ('and', 'or', 'cmp', 'not') else None, {"xycoords": xy})
-        env = {}
-        try:
-            ce._walk(stm, env, [])
-        except Undecided as ex:
-            rep.undecided("R07.a", file, "c_coord2cell", "loop body", str(ex), line=loop[0].get("_line"))
-            continue
-        out = [e for e in ce.effects if e.arr == "idxcell"]
-        if not inside:
-            # with the test written negatively (`if(outside) -1 else ..`) the oracle polarity flips: accept either
-            pass
-        vals = [show(e.val) for e in out]
-        if inside:
-            inside_vals = out
-    # evaluate both polarities and classify the stores by value
-    stores = {}
-    for pol in (True, False):
-        ce = CEval(lambda c, pol=pol: pol if c[0] in ('and', 'or', 'cmp', 'not') else None, {"xycoords": xy})
-        env = {}
-        ce._walk(stm, env, [])
-        for e in ce.effects:
-            if e.arr == "idxcell":
-                stores[pol] = (e, dict(env))
-    minus = [p for p, (e, _) in stores.items() if cn.ratio(e.val) == Ratio.const(-1)]
-    cellp = [p for p in stores if p not in minus]
-    rep.check(len(minus) == 1 and len(cellp) == 1, "R07.a", file, "c_coord2cell", "one branch stores -1 (outside), the other a cell number", str({p: show(e.val)[:50] for p, (e, _) in stores.items()}), line=loop[0].get("_line"))
-    if len(cellp) == 1:
-        e, env = stores[cellp[0]]
-        # substitute the centre of cell (C, R):  X, Y := getcoord
-        sub = {"X": co.get("0"), "Y": co.get("1")}
+    # ---------------- c_cell2rowcol / c_cell2coord --------------------------------------------------------------------------
+    def cell_kernel(name, outarr, want0, want1, failv):
+        fn = N(name)
+        loop, lr = one_loop(fn, file)
+        iv = lr["var"] if lr else loop_var(loop)
+        rep.check(cq.range_is(lr, "0", "nval-1"), "R07.a", file, name, "every element is converted once", "", line=loop.get("_line"))
+        c = f"idxcell[{iv}]"
+        bad = f"{c} < 0 || {c} >= nrows*ncols"
+        ce = cq.evaluate(body_stmts(loop_parts(loop)[3]))
+        env = {"COL": cq.parse(f"{c} % ncols"), "ROW": cq.parse(f"({c} - {c} % ncols)/ncols")}
+        st = cq.stores(ce, outarr)
+        good = [e for e in st if cq.excluded(e.conds, bad, True)]
+        fail = [e for e in st if cq.holds_any(e.conds, bad, True)]
+        other = [e for e in st if e not in good and e not in fail]
+        by = {}
+        for e in good:
+            by.setdefault("0" if cq.same_expr(e.idx, f"2*{iv}") else "1" if cq.same_expr(e.idx, f"2*{iv}+1") else "?", []).append(e)
+        okf = set(by) == {"0", "1"} and len(by["0"]) == 1 and len(by["1"]) == 1 and \
+            cq.same_expr(by["0"][0].val, cq.parse(want0, env)) and cq.same_expr(by["1"][0].val, cq.parse(want1, env))
+        return fn, loop, okf, good, fail, other, by
 
-        def subst(x):
-            if x == X:
-                return sub["X"]
-            if x == Y:
-                return sub["Y"]
-            if not isinstance(x, tuple) or not x or x[0] in ('sym', 'num', 'nan'):
-                return x
-            if x[0] == 'call':
-                return (x[0], x[1], tuple(subst(a) for a in x[2])) + tuple(x[3:])
-            if x[0] == 'cmp':
-                return ('cmp', x[1], subst(x[2]), subst(x[3]))
-            if x[0] == 'tuple':
-                return ('tuple', tuple(subst(a) for a in x[1]))
-            return (x[0],) + tuple(subst(c) if isinstance(c, tuple) else c for c in x[1:])
+    fn, loop, okf, good, fail, other, by = cell_kernel("c_cell2rowcol", "rowcols", "ROW", "COL", "-1")
+    rep.check(okf, "R07.a", file, "c_cell2rowcol", "valid cell c: stores (row, column) = ((c - c mod ncols)/ncols, c mod ncols)",
+              "; ".join(repr(e) for e in good)[:300], line=loop.get("_line"))
+    okfail = len(fail) == 2 and all(cq.same_expr(e.val, "-1") for e in fail) and not other
+    rep.check(okfail, "R07.c", file, "c_cell2rowcol", "`c < 0 || c >= nrows*ncols` separates the conversion from the path that stores (-1, -1)",
+              "; ".join(repr(e) for e in fail + other)[:300], line=loop.get("_line"))
+    fn, loop, okf, good, fail, other, by = cell_kernel("c_cell2coord", "xycoords", "xll + csz*(COL + 0.5)", "yll + csz*((nrows - 1 - ROW) + 0.5)", "nan")
+    rep.check(okf, "R07.a", file, "c_cell2coord", "valid cell c: stores the centre (xll + csz (col + 1/2), yll + csz (nrows-1-row + 1/2))",
+              "; ".join(repr(e) for e in good)[:300], line=loop.get("_line"))
+    okfail = len(fail) == 2 and all(is_nan(e.val) for e in fail) and not other
+    rep.check(okfail, "R07.c", file, "c_cell2coord", "`c < 0 || c >= nrows*ncols` separates the conversion from the path that stores (NaN, NaN)",
+              "; ".join(repr(e) for e in fail + other)[:300], line=loop.get("_line"))
 
-        def defloor(x):
-            """floor(q) -> q - 1/2 when q is an integer + 1/2 (checked by the caller through the identity)"""
-            return x
-        val = subst(e.val)
-        # collect floor arguments
-        floors = []
-
-        def collect(x):
-            if isinstance(x, tuple) and x and x[0] == 'call' and x[1] == 'floor':
-                floors.append(x[2][0])
-            if isinstance(x, tuple):
-                for c in (x[2] if x and x[0] == 'call' else x[1:] if x and x[0] != 'cmp' else x[2:]):
-                    if isinstance(c, tuple):
-                        collect(c)
-        collect(val)
-        wants = [cn.ratio(('add', C, half)), cn.ratio(('add', ('sub', ('sub', ('sym', 'nrows'), num(1)), R), half))]
-        got = [cn.ratio(f) for f in floors]
-        okfl = len(got) == 2 and all(any(g_ == w for g_ in got) for w in wants)
+    # ---------------- c_coord2cell ------------------------------------------------------------------------------------------------------------
+    cc = N("c_coord2cell")
+    loop, lr = one_loop(cc, file)
+    iv = lr["var"] if lr else loop_var(loop)
+    rep.check(cq.range_is(lr, "0", "nval-1"), "R07.a", file, "c_coord2cell", "every point is converted once", "", line=loop.get("_line"))
+    X, Y = f"xycoords[2*{iv}]", f"xycoords[2*{iv}+1]"
+    FX, FY = f"floor(({X} - xll)/csz)", f"floor(({Y} - yll)/csz)"
+    stm = body_stmts(loop_parts(loop)[3])
+    ce = cq.evaluate(stm)
+    st = [e for e in cq.stores(ce, "idxcell") if cq.same_expr(e.idx, iv)]
+    cellst = [e for e in st if not cq.same_expr(e.val, "-1")]
+    inside = f"{FX} >= 0 && {FX} < ncols && {FY} >= 0 && {FY} < nrows"
+    okcell = len(cellst) == 1 and cq.same_expr(cellst[0].val, f"(nrows - 1 - {FY})*ncols + {FX}")
+    rep.check(okcell, "R07.a", file, "c_coord2cell", "inside: cell = (nrows-1-fy)*ncols + fx with fx = floor((x-xll)/csz), fy = floor((y-yll)/csz)",
+              repr(cellst[0])[:300] if cellst else "no cell store", line=loop.get("_line"))
+    if okcell:
+        # composition with the centre of cell (C, R): floor arguments are C + 1/2 and nrows-1-R + 1/2 exactly
+        ax = cn.ratio(cq.parse("((xll + csz*(C + 0.5)) - xll)/csz"))
+        ay = cn.ratio(cq.parse("((yll + csz*((nrows - 1 - R) + 0.5)) - yll)/csz"))
+        okfl = ax == cn.ratio(cq.parse("C + 0.5")) and ay == cn.ratio(cq.parse("nrows - 1 - R + 0.5"))
         rep.check(okfl, "R07.a", file, "c_coord2cell", "at a cell centre the floored quantities are col + 1/2 and nrows-1-row + 1/2 (exact), so floor gives the column and the row counted from the bottom",
-                  f"floor arguments: {[str(g_) for g_ in got]}", line=e.line)
-        if okfl:
-            # replace floor(col+1/2) by col etc. and compare the cell number
-            def repl(x):
-                if isinstance(x, tuple) and x and x[0] == 'call' and x[1] == 'floor':
-                    r = cn.ratio(x[2][0])
-                    if r == wants[0]:
-                        return C
-                    if r == wants[1]:
-                        return ('sub', ('sub', ('sym', 'nrows'), num(1)), R)
-                if not isinstance(x, tuple) or not x or x[0] in ('sym', 'num', 'nan'):
-                    return x
-                if x[0] == 'call':
-                    return (x[0], x[1], tuple(repl(a) for a in x[2])) + tuple(x[3:])
-                return (x[0],) + tuple(repl(c) if isinstance(c, tuple) else c for c in x[1:])
-            okid = cn.ratio(repl(val)) == cn.ratio(('add', ('mul', R, ('sym', 'ncols')), C))
-            rep.check(okid, "R07.a", file, "c_coord2cell", "coord2cell(cell2coord(c)) = row*ncols + col = c", f"recombined as {show(repl(val))[:80]}", line=e.line)
-    # R07.b conversion discipline
-    casts = find_all(cc["body"], lambda n: n.get("kind") in ("CStyleCastExpr", "ImplicitCastExpr") and n.get("castKind") == "FloatingToIntegral")
+                  f"{ax}; {ay}", line=cellst[0].line)
+        okid = cn.ratio(cq.parse("(nrows - 1 - (nrows - 1 - R))*ncols + C")) == cn.ratio(cq.parse("R*ncols + C"))
+        rep.check(okid, "R07.a", file, "c_coord2cell", "coord2cell(cell2coord(c)) = row*ncols + col = c", "", line=cellst[0].line)
+    # R07.b: conversions in the stored value are of floor()ed operands; the store is reached only under the double range test
+    casts = find_all(loop, lambda n: n.get("kind") in ("CStyleCastExpr", "ImplicitCastExpr") and n.get("castKind") == "FloatingToIntegral")
     rep.floor("double->integer conversions in c_coord2cell", len(casts), 2)
-    fl_vars = {}
-    for s in find_all(cc["body"], lambda n: n.get("kind") == "BinaryOperator" and n.get("opcode") == "="):
-        rhs = strip(s["inner"][1])
-        while rhs.get("kind") in ("ImplicitCastExpr", "ParenExpr"):
-            rhs = strip(rhs["inner"][0])
-        if rhs.get("kind") == "CallExpr" and text(rhs["inner"][0]) == "floor":
-            fl_vars[text(s["inner"][0])] = s
     for c in casts:
-        op = strip(c["inner"][0])
-        while op.get("kind") in ("ParenExpr", "ImplicitCastExpr") and op.get("castKind") != "FloatingToIntegral":
-            op = strip(op["inner"][0])
-        t = text(op).replace(" ", "")
-        direct_floor = op.get("kind") == "CallExpr" and text(op["inner"][0]) == "floor"
-        via_var = op.get("kind") == "DeclRefExpr" and t in fl_vars
-        # dominated by a double range test of the same variable
-        guarded = False
-        if via_var:
-            p = None
-            for ifs in find_all(cc["body"], lambda n: n.get("kind") == "IfStmt"):
-                tt = text(ifs["inner"][0]).replace(" ", "")
-                if f"{t}>=0" in tt and (f"{t}<ncols" in tt or f"{t}<nrows" in tt) and "||" not in tt and find_all(ifs["inner"][1], lambda n: n is c):
-                    guarded = True
-        rep.check((via_var and guarded) or direct_floor, "R07.b", file, "c_coord2cell", f"conversion `{text(c)[:40]}` converts a floor()ed value range-tested as a double",
+        op = c["inner"][0]
+        while op.get("kind") in ("ParenExpr", "ImplicitCastExpr", "CStyleCastExpr") and op.get("castKind") != "FloatingToIntegral":
+            op = op["inner"][0]
+        isfloor = op.get("kind") == "CallExpr" and text(op["inner"][0]) == "floor"
+        which = None
+        if isfloor:
+            which = "x" if cq.same_expr(op, FX) else "y" if cq.same_expr(op, FY) else None
+        rep.check(isfloor and which is not None, "R07.b", file, "c_coord2cell", f"conversion `{text(c)[:60]}` converts a floor()ed offset",
                   "a truncated offset maps (-1, 0) to 0: points up to one cell left of / below the extent would be reported inside", line=c.get("_line"))
-    # the range test itself
-    rt = [text(s["inner"][0]).replace(" ", "") for s in find_all(cc["body"], lambda n: n.get("kind") == "IfStmt")]
-    okrt = any(all(x in t for x in ("fx>=0", "fx<ncols", "fy>=0", "fy<nrows")) and "||" not in t for t in rt)
-    rep.check(okrt, "R07.b", file, "c_coord2cell", "inside test: 0 <= fx < ncols and 0 <= fy < nrows on the floored doubles (false for NaN)", str(rt), line=loop[0].get("_line"))
+    okrt = len(cellst) == 1 and cq.holds(cellst[0].conds, inside, False)
+    rep.check(okrt, "R07.b", file, "c_coord2cell", "inside test: 0 <= fx < ncols and 0 <= fy < nrows on the floored doubles (false for NaN) dominates the store of the cell number",
+              repr(cellst[0].conds)[:200] if cellst else "", line=loop.get("_line"))
+    # every other path ends with -1 in the output
+    okm1 = True
+    for env_, conds, how in ce.finals:
+        key = f"idxcell[{iv}]"
+        if cq.holds(conds, inside, False):
+            continue
+        v = env_.get(key)
+        if v is None or not cq.same_expr(v, "-1"):
+            okm1 = False
+    rep.check(okm1 and bool(ce.finals), "R07.b", file, "c_coord2cell", "every path on which the range test fails leaves -1 in the output", "", line=loop.get("_line"))
 
-    # ---------------- R07.c invalid cells ------------------------------------------------------------------------------------------------------
-    N = cn.ratio(('mul', ('sym', 'nrows'), ('sym', 'ncols')))
-    for fname, var, fail in (("c_cell2rowcol", "icell", "-1"), ("c_cell2coord", "icell", "nan"), ("c_neighbours", "idxcell", "return"),
-                             ("c_upstream", "idxcell", "return"), ("c_downstream", "idxcell", "return")):
-        fn = fns[fname]
-        ifs = [s for s in find_all(fn["body"], lambda n: n.get("kind") == "IfStmt") if var in text(s["inner"][0]) and "nrows" in _expanded(s["inner"][0], fn)]
-        ok, det = False, "range test not found"
-        if ifs:
-            s = ifs[0]
-            env = _env_before(fn, s)
-            try:
-                c = to_expr(s["inner"][0], env)
-            except Undecided as ex:
-                c = None
-                det = str(ex)
-            if c is not None and c[0] == 'or':
-                parts = [c[1], c[2]]
-                lo = [p for p in parts if p[0] == 'cmp' and p[1] == '<' and show(p[2]) == var and p[3] == num(0)]
-                hi = [p for p in parts if p[0] == 'cmp' and ((p[1] == '>=' and show(p[2]) == var and cn.ratio(p[3]) == N) or
-                                                            (p[1] == '>' and show(p[2]) == var and cn.ratio(p[3]) == N - 1))]
-                ok = len(lo) == 1 and len(hi) == 1
-                det = show(c)
-            if ok:
-                # dominance: every use of getnxy/getcoord/c_neighbours/flowdir[var] comes after or in the else branch
-                uses = find_all(fn["body"], lambda n: (n.get("kind") == "CallExpr" and text(n["inner"][0]) in ("getnxy", "getcoord", "c_neighbours")) or
-                                (n.get("kind") == "ArraySubscriptExpr" and text(n).replace(" ", "") == f"flowdir[{var}]"))
-                okdom = all(u.get("_line", 0) >= s.get("_line", 0) for u in uses) and not any(find_all(s["inner"][1], lambda n: n is u) for u in uses)
-                then = s["inner"][1]
-                if fail == "return":
-                    okfail = bool(find_all(then, lambda n: n.get("kind") == "ReturnStmt"))
-                elif fail == "-1":
-                    okfail = len(stores_to(then, "rowcols")) == 2 and all(text(x["inner"][1]).replace(" ", "") == "-1" for x in stores_to(then, "rowcols"))
-                else:
-                    okfail = len(stores_to(then, "xycoords")) == 2 and all(text(x["inner"][1]).replace(" ", "") == "nan" for x in stores_to(then, "xycoords"))
-                ok = okdom and okfail
-                det += f"; dominance {okdom}, failing branch {fail}: {okfail}"
-        rep.check(ok, "R07.c", file, fname, f"`{var} < 0 || {var} >= nrows*ncols` dominates every use and yields {fail}", det, line=fn["line"])
-    # cell2rowcol column / row order
-    cr = fns["c_cell2rowcol"]
-    st = {text(s["inner"][0]).replace(" ", ""): text(s["inner"][1]).replace(" ", "") for s in stores_to(cr["body"], "rowcols") if "rowcol[" in text(s["inner"][1])}
-    rep.check(st.get("rowcols[2*i]") == "rowcol[1]" and st.get("rowcols[2*i+1]") == "rowcol[0]", "R07.a", file, "c_cell2rowcol", "output columns are (row, column) = (getnxy[1], getnxy[0])", str(st), line=cr["line"])
+    # ---------------- R07.c invalid cells in the neighbour kernels ----------------------------------------------------------------------
+    nb = N("c_neighbours")
+    nce = cq.evaluate(body_stmts(nb["body"]), maxpaths=2000)
+    badn = "idxcell < 0 || idxcell >= nrows*ncols"
+    errs = [r for r in nce.returns if isinstance(r[0], tuple) and not cq.same_expr(r[0], "0") and cq.holds_any(r[1], badn, True)]
+    uses = [e for e in nce.effects if e.op in ("=", "+=")]
+    rep.check(bool(errs) and bool(uses) and all(cq.excluded(e.conds, badn, True) for e in uses), "R07.c", file, "c_neighbours",
+              "`idxcell < 0 || idxcell >= nrows*ncols` returns an error before any use", "", line=nb["line"])
+    for name, arr in (("c_upstream", "idxdown"), ("c_downstream", "idxup")):
+        fn = N(name)
+        top = body_stmts(fn["body"])
+        ls = [s for s in top if s.get("kind") == "ForStmt" and cnorm.writes(s)[1]]
+        if len(ls) != 1:
+            raise AnalysisError(f"{file}: {name}: cell loop not found")
+        iv2 = loop_var(ls[0])
+        c = f"{arr}[{iv2}]"
+        bad = f"{c} < 0 || {c} >= nrows*ncols"
+        ce2 = cq.evaluate(body_stmts(loop_parts(ls[0])[3]))
+        errs = [r for r in ce2.returns if isinstance(r[0], tuple) and not cq.same_expr(r[0], "0") and cq.holds_any(r[1], bad, True)]
+        uses = [e for e in ce2.effects]
+        rep.check(bool(errs) and bool(uses) and all(cq.excluded(e.conds, bad, True) for e in uses), "R07.c", file, name,
+                  f"`{c} < 0 || {c} >= nrows*ncols` returns an error before the cell is used", "", line=fn["line"])
 
     # ---------------- R07.d wrappers ----------------------------------------------------------------------------------------------------------------
     mod = Mod(rep.repo, "gis/grid.py")
-    b = ExprBuilder(lambda d, env: ('sym', d.split(".")[-1]) if d.startswith("self.") else None, None)
-    xv, yv = mod.func("Grid.xvalues"), mod.func("Grid.yvalues")
-    for f, want, colidx, nm in ((xv, "np.arange(ncols)", 0, "xvalues"), (yv, "np.arange(0, nrows*ncols, ncols)", 1, "yvalues")):
-        cells = [n for n in f.body if isinstance(n, ast.Assign) and isinstance(n.targets[0], ast.Name) and n.targets[0].id == "cells"]
-        ok = False
-        det = ""
-        if cells:
+    senv = {}
+
+    def ret_of(qn):
+        f = mod.func(qn)
+        ps = [p_ for p_ in pq.PEval().run(f) if p_.how == "return"]
+        return f, ps
+    geo_alias = {"self._getsize()[0]": "self.xllcorner", "self._getsize()[1]": "self.yllcorner", "self._getsize()[2]": "self.cellsize",
+                 "self._getsize()[3]": "self.nrows", "self._getsize()[4]": "self.ncols"}
+    gs = mod.funcs.get("Grid._getsize")
+    if gs is not None:
+        gp = [p_ for p_ in pq.PEval().run(gs) if p_.how == "return"]
+        okgs = len(gp) == 1 and pq.same(gp[0].value, "(self.xllcorner, self.yllcorner, self.cellsize, self.nrows, self.ncols)")
+        rep.check(okgs, "R07.d", "gis/grid.py", "Grid._getsize", "_getsize returns (xllcorner, yllcorner, cellsize, nrows, ncols) in this order",
+                  show(gp[0].value)[:120] if gp else "", line=gs.lineno)
+
+    def norm_geo(e):
+        """calls of self._getsize() that survived (not inlined) replaced by the attributes it returns"""
+        if not isinstance(e, tuple) or not e or not isinstance(e[0], str):
+            return e
+        if pq.call_named(e, "getitem") and pq.call_named(e[2][0], "._getsize") and e[2][0][2][0] == ('sym', 'self'):
             try:
-                c3 = Canon()
-                got = c3.ratio(b.build(cells[0].value, {}))
-                w = c3.ratio(b.build(ast.parse(want, mode="eval").body, {"ncols": ('sym', 'ncols'), "nrows": ('sym', 'nrows')}))
-                ok = got == w
-                det = ast.unparse(cells[0].value)
-            except Undecided as ex:
-                det = str(ex)
-        ret = [n for n in f.body if isinstance(n, ast.Return)]
-        okr = bool(ret) and ast.unparse(ret[0].value).replace(" ", "") == f"xv[:,{colidx}]"
-        c2c = any(isinstance(n, ast.Call) and dotted(n.func) == "self.cell2coord" and ast.unparse(n.args[0]) == "cells" for n in ast.walk(f))
-        rep.check(ok and okr and c2c, "R07.d", "gis/grid.py", f"Grid.{nm}", f"{nm} = coordinate {colidx} of cell2coord({want})", det, line=f.lineno)
-    for nm, want in (("xlim", "(xllcorner, xllcorner + ncols*cellsize)"), ("ylim", "(yllcorner, yllcorner + nrows*cellsize)")):
-        f = mod.func(f"Grid.{nm}")
-        ret = [n for n in f.body if isinstance(n, ast.Return)]
-        ok = False
-        if ret:
-            try:
-                c3 = Canon()
-                env = {k: ('sym', k) for k in ("xllcorner", "yllcorner", "ncols", "nrows", "cellsize")}
-                ok = c3.ratio(b.build(ret[0].value, {})) == c3.ratio(b.build(ast.parse(want, mode="eval").body, env))
-            except Undecided:
-                ok = False
-        rep.check(ok, "R07.d", "gis/grid.py", f"Grid.{nm}", f"{nm} = {want}", ast.unparse(ret[0].value) if ret else "", line=f.lineno)
-    # wrappers bind the geometry in the kernel's order and raise on errors
-    from .. import xlayer, pyxread
+                k = int(Canon().ratio(e[2][1]).cval())
+                return pq.parse(list(geo_alias.values())[k])
+            except Exception:
+                return e
+        if e[0] in ('sym', 'num', 'nan', 'x'):
+            return e
+        out = [e[0]]
+        for c in e[1:]:
+            if isinstance(c, tuple) and c and isinstance(c[0], str):
+                out.append(norm_geo(c))
+            elif isinstance(c, tuple):
+                out.append(tuple(norm_geo(x) if isinstance(x, tuple) and x and isinstance(x[0], str) else
+                                 (tuple(norm_geo(y) if isinstance(y, tuple) else y for y in x) if isinstance(x, tuple) else x) for x in c))
+            else:
+                out.append(c)
+        return tuple(out)
+    for nm, cells, col in (("xvalues", "np.arange(self.ncols)", 0), ("yvalues", "np.arange(0, self.nrows*self.ncols, self.ncols)", 1)):
+        f, ps = ret_of(f"Grid.{nm}")
+        ok = len(ps) == 1 and pq.same(norm_geo(ps[0].value), f"self.cell2coord({cells})[:, {col}]")
+        rep.check(ok, "R07.d", "gis/grid.py", f"Grid.{nm}", f"{nm} = coordinate {col} of cell2coord({cells})", show(ps[0].value)[:160] if ps else "", line=f.lineno)
+    for nm, want in (("xlim", "(self.xllcorner, self.xllcorner + self.ncols*self.cellsize)"), ("ylim", "(self.yllcorner, self.yllcorner + self.nrows*self.cellsize)")):
+        f, ps = ret_of(f"Grid.{nm}")
+        ok = len(ps) == 1 and pq.same(norm_geo(ps[0].value), want)
+        rep.check(ok, "R07.d", "gis/grid.py", f"Grid.{nm}", f"{nm} = {want}", show(ps[0].value)[:160] if ps else "", line=f.lineno)
     P = pyxread.load_all(rep.repo)
     shims = {cm: {sh.name: sh for sh in d["shims"]} for cm, d in P.items()}
     sites, _ = xlayer.find_sites(rep.repo, shims)
+    want_geo = {"xll": "self.xllcorner", "yll": "self.yllcorner", "csz": "self.cellsize", "nrows": "self.nrows", "ncols": "self.ncols"}
     for s in sites:
         if s.shim.name in ("coord2cell", "cell2coord", "cell2rowcol", "neighbours"):
             ok, how, _ = xlayer.error_discipline(s)
             rep.check(ok, "R07.d", "gis/grid.py", s.func.name, f"{s.shim.name}: kernel error code raises", how, line=s.call.lineno)
-            names = {pn: ast.unparse(v[0]) for pn, v in s.args.items()}
-            geo = {k: names.get(k) for k in ("nrows", "ncols", "xll", "yll", "csz") if k in s.shim.params}
-            rep.check(all(v == k for k, v in geo.items()), "R07.d", "gis/grid.py", s.func.name, f"{s.shim.name}: geometry arguments bound to the same-named parameters", str(geo), line=s.call.lineno)
-    gs = mod.func("Grid._getsize")
-    ret = [n for n in gs.body if isinstance(n, ast.Return)]
-    rep.check(bool(ret) and ast.unparse(ret[0].value).replace(" ", "") == "(xll,yll,csz,nrows,ncols)" and
-              all(any(isinstance(n, ast.Assign) and ast.unparse(n).replace(" ", "") == t for n in gs.body) for t in
-                  ("xll=self.xllcorner", "yll=self.yllcorner", "csz=self.cellsize", "nrows=self.nrows", "ncols=self.ncols")),
-              "R07.d", "gis/grid.py", "Grid._getsize", "_getsize returns (xllcorner, yllcorner, cellsize, nrows, ncols) in this order", "", line=gs.lineno)
+            pargs = pq.call_arguments(s.func, s.call, list(s.shim.params))
+            geo = {k_: pargs.get(k_) for k_ in want_geo if k_ in s.shim.params}
+            okg = all(v is not None and pq.same(norm_geo(v), want_geo[k_]) for k_, v in geo.items())
+            rep.check(okg, "R07.d", "gis/grid.py", s.func.name, f"{s.shim.name}: geometry arguments are the grid's own attributes, bound to the parameters of the same meaning",
+                      "; ".join(f"{k_}={show(v)[:40] if v else None}" for k_, v in geo.items()), line=s.call.lineno)
     return EXPLANATION
-
-
-def _expanded(cond, fn):
-    """text of a condition with local definitions of the names it mentions appended (to find hoisted nrows*ncols)"""
-    t = text(cond)
-    for s in find_all(fn["body"], lambda n: n.get("kind") == "BinaryOperator" and n.get("opcode") == "="):
-        if text(s["inner"][0]) in t:
-            t += " " + text(s["inner"][1])
-    for d in find_all(fn["body"], lambda n: n.get("kind") == "VarDecl" and n.get("inner")):
-        if d["name"] in t:
-            init = [c for c in d["inner"] if c.get("kind")]
-            if init:
-                t += " " + text(init[0])
-    return t
-
-
-def _env_before(fn, stmt):
-    """scalar definitions made by top-level simple assignments / initialisers before `stmt`"""
-    env = {}
-    for s in find_all(fn["body"], lambda n: n.get("kind") in ("BinaryOperator", "VarDecl")):
-        if s.get("_line", 0) >= stmt.get("_line", 0):
-            continue
-        try:
-            if s.get("kind") == "BinaryOperator" and s.get("opcode") == "=":
-                t = strip(s["inner"][0])
-                if t.get("kind") == "DeclRefExpr" and t["referencedDecl"]["name"] not in ("icell", "idxcell", "i"):
-                    env[t["referencedDecl"]["name"]] = to_expr(s["inner"][1], env)
-            elif s.get("kind") == "VarDecl":
-                init = [c for c in s.get("inner", []) if c.get("kind")]
-                if init:
-                    env[s["name"]] = to_expr(init[0], env)
-        except Undecided:
-            continue
-    return env
